@@ -30,6 +30,70 @@ ALL_ASSET = {  # Market query -> OrderBook query
 FAN_OUT = {"set_time": "set_time", "enable_trading": "enable_trading", "disable_trading": "disable_trading", "reset_trade_vols": "reset_trade_vol"}
 
 
+def per_asset_rules(ctx, m, names=None, RULE="per-asset"):
+    """a Market method addressed to one asset forwards to the same-named OrderBook method of order_books[asset], exactly once,
+    unconditionally, with the remaining arguments bound by name"""
+    books_f = [x["name"] for x in ctx.prog.adt_fields(MARKET)]
+    BF = books_f[0]
+    pub = {f.name: f for f in ctx.prog.find(crate="bourse_book", adt="Market") if f.pub and f.impl_trait is None}
+
+    def book_index(e):
+        return [x for x in walk(e) if x[0] == "index" and fld(x[1], BF)]
+    for name, spec in PER_ASSET.items():
+        if names is not None and name not in names:
+            continue
+        f = pub.get(name)
+        if f is None:
+            ctx.lost(RULE, "Market::" + name)
+            continue
+        q = m.q(f)
+        if spec is None:
+            r = q.ret()
+            ix = book_index(r)
+            ok = len(ix) == 1 and ix[0][2][0] == "param" and ix[0][2][2] == "asset"
+            ctx.check(ok, RULE, name, ctx.loc(f), "%s returns order_books[asset]" % name, "%s returns %s" % (name, render(r)))
+            continue
+        target, mode = spec
+        calls = [c for c in q.calls(target) if c.target is not None and (c.target.impl_adt or "").endswith("orderbook::OrderBook")]
+        if len(calls) != 1 or calls[0].guards:
+            ctx.bad(RULE, name + "|forward", ctx.loc(f), "Market::%s does not forward to OrderBook::%s exactly once, unconditionally" % (name, target))
+            continue
+        c = calls[0]
+        ix = book_index(c.args[0])
+        if mode == "asset":
+            idx_ok = len(ix) == 1 and ix[0][2][0] == "param" and ix[0][2][2] == "asset"
+        else:
+            idx_ok = len(ix) == 1 and ix[0][2][0] == "field" and ix[0][2][2] == "0" and ix[0][2][1][0] == "param" and ix[0][2][1][2] == "order_id"
+        ctx.check(idx_ok, RULE, name + "|book", c.loc(), "Market::%s addresses order_books[%s]" % (name, "asset" if mode == "asset" else "order_id.0"),
+                  "Market::%s addresses %s" % (name, render(c.args[0])))
+        # remaining arguments
+        ok = True
+        for i, formal in enumerate(c.formals[1:], start=1):
+            a = c.args[i]
+            if formal == "order_id":
+                ok = ok and a[0] == "field" and a[2] == "1" and a[1][0] == "param" and a[1][2] == "order_id"
+            else:
+                ok = ok and a[0] == "param" and a[2] == formal
+        ctx.check(ok, RULE, name + "|args", c.loc(), "arguments forwarded by name (%s)%s" % (", ".join(c.formals[1:]), "; id = order_id.1" if mode == "id" else ""),
+                  "Market::%s forwards %s" % (name, c.text()))
+        if name in ("create_order", "create_and_place_order"):
+            from analysis.beta import normalize
+            r = normalize(m.w, q.ret())   # `?` + Ok((asset, id)) and Result::map(|id| (asset, id)) read alike
+            oks = [x for x in walk(r) if x[0] == "agg" and x[2].endswith("Result::Ok")]
+            okr = len(oks) == 1 and oks[0][3][0][0] == "agg" and oks[0][3][0][1] == "tuple" and len(oks[0][3][0][3]) == 2
+            if okr:
+                a0, a1 = oks[0][3][0][3]
+                okr = a0[0] == "param" and a0[2] == "asset" and any(x[0] == "call" and x[4] == target for x in walk(a1))
+            ctx.check(okr, RULE, name + "|id", ctx.loc(f), "returns Ok((asset, id assigned by that book))", "Market::%s returns %s" % (name, render(r)))
+        elif name in ("order", "get_orders"):
+            ctx.check(same(q.ret(), c.result), RULE, name + "|ret", ctx.loc(f), "returns the book's result unchanged")
+        s = m.w.effects.summary(f)
+        if s["writes"]:
+            okw = all(covers([(1, (BF, "[]"))], w) for w in s["writes"]) and not s["unknown"]
+            ctx.check(okw, RULE, name + "|effects", ctx.loc(f), "writes only below order_books[<that index>]", "Market::%s writes %s" % (name, sorted(s["writes"])))
+
+
+
 def run(ctx):
     m = Model(ctx)
     books_f = [x["name"] for x in ctx.prog.adt_fields(MARKET)]
@@ -47,56 +111,7 @@ def run(ctx):
         return ix
 
     # ---------------------------------------------------------------- per-asset methods
-    for name, spec in PER_ASSET.items():
-        f = pub.get(name)
-        if f is None:
-            ctx.lost("per-asset", "Market::" + name)
-            continue
-        q = m.q(f)
-        if spec is None:
-            r = q.ret()
-            ix = book_index(r)
-            ok = len(ix) == 1 and ix[0][2][0] == "param" and ix[0][2][2] == "asset"
-            ctx.check(ok, "per-asset", name, ctx.loc(f), "%s returns order_books[asset]" % name, "%s returns %s" % (name, render(r)))
-            continue
-        target, mode = spec
-        calls = [c for c in q.calls(target) if c.target is not None and (c.target.impl_adt or "").endswith("orderbook::OrderBook")]
-        if len(calls) != 1 or calls[0].guards:
-            ctx.bad("per-asset", name + "|forward", ctx.loc(f), "Market::%s does not forward to OrderBook::%s exactly once, unconditionally" % (name, target))
-            continue
-        c = calls[0]
-        ix = book_index(c.args[0])
-        if mode == "asset":
-            idx_ok = len(ix) == 1 and ix[0][2][0] == "param" and ix[0][2][2] == "asset"
-        else:
-            idx_ok = len(ix) == 1 and ix[0][2][0] == "field" and ix[0][2][2] == "0" and ix[0][2][1][0] == "param" and ix[0][2][1][2] == "order_id"
-        ctx.check(idx_ok, "per-asset", name + "|book", c.loc(), "Market::%s addresses order_books[%s]" % (name, "asset" if mode == "asset" else "order_id.0"),
-                  "Market::%s addresses %s" % (name, render(c.args[0])))
-        # remaining arguments
-        ok = True
-        for i, formal in enumerate(c.formals[1:], start=1):
-            a = c.args[i]
-            if formal == "order_id":
-                ok = ok and a[0] == "field" and a[2] == "1" and a[1][0] == "param" and a[1][2] == "order_id"
-            else:
-                ok = ok and a[0] == "param" and a[2] == formal
-        ctx.check(ok, "per-asset", name + "|args", c.loc(), "arguments forwarded by name (%s)%s" % (", ".join(c.formals[1:]), "; id = order_id.1" if mode == "id" else ""),
-                  "Market::%s forwards %s" % (name, c.text()))
-        if name in ("create_order", "create_and_place_order"):
-            from analysis.beta import normalize
-            r = normalize(m.w, q.ret())   # `?` + Ok((asset, id)) and Result::map(|id| (asset, id)) read alike
-            oks = [x for x in walk(r) if x[0] == "agg" and x[2].endswith("Result::Ok")]
-            okr = len(oks) == 1 and oks[0][3][0][0] == "agg" and oks[0][3][0][1] == "tuple" and len(oks[0][3][0][3]) == 2
-            if okr:
-                a0, a1 = oks[0][3][0][3]
-                okr = a0[0] == "param" and a0[2] == "asset" and any(x[0] == "call" and x[4] == target for x in walk(a1))
-            ctx.check(okr, "per-asset", name + "|id", ctx.loc(f), "returns Ok((asset, id assigned by that book))", "Market::%s returns %s" % (name, render(r)))
-        elif name in ("order", "get_orders"):
-            ctx.check(same(q.ret(), c.result), "per-asset", name + "|ret", ctx.loc(f), "returns the book's result unchanged")
-        s = m.w.effects.summary(f)
-        if s["writes"]:
-            okw = all(covers([(1, (BF, "[]"))], w) for w in s["writes"]) and not s["unknown"]
-            ctx.check(okw, "per-asset", name + "|effects", ctx.loc(f), "writes only below order_books[<that index>]", "Market::%s writes %s" % (name, sorted(s["writes"])))
+    per_asset_rules(ctx, m)
 
     # ---------------------------------------------------------------- all-asset queries
     n_cl = n_ix = 0
@@ -200,6 +215,10 @@ def run(ctx):
     from . import c02
     from .c06 import _Prefixed as _P
     c02.views(_P(ctx, "all-asset-"), m)
+    # the multi-asset environment queues exactly what its single-asset twin queues: one instruction per submission, built from the
+    # same-named parameters, unconditionally (C08's submission rules instantiated for MarketEnv)
+    c08_submit = getattr(__import__("rules.c08", fromlist=["submission_rules"]), "submission_rules")
+    c08_submit(_P(ctx, "twin-"), m, (("MarketEnv", m.menv_fn, "market"),))
     # .. and applies EVERY queued instruction of every asset, once, at start + position (each asset's history equals that of a
     # stand-alone book fed that asset's operations at the same times): the batch rules of C08 on the multi-asset step
     from . import c08
